@@ -1,4 +1,4 @@
-import Pyrealb.Model.HeapLink
+import Pyrealb.Model.HeapRegion
 import Pyrealb.Model.GetElems
 /-! # Construction operations on the store and histories
 
@@ -40,6 +40,8 @@ def linkR (h : Heap) (p : Nat) : R Heap :=
   match plan h p with
   | none => .outside
   | some acts =>
+    if !planLocal h p acts then .outside      -- fragment: the run only mentions nodes of the tree of `p`
+    else
     match exec h acts with
     | .error c => .crash c
     | .ok h' => .ok h'
@@ -147,10 +149,28 @@ def reorderLoop (h : Heap) (p : Nat) : List Nat → Heap
 
 def reorder (h : Heap) (p : Nat) : Heap := reorderLoop h p (List.range (h.kids p).length)
 
-/-- `Phrase.add(constituent, position)` for a Constituent -/
+/-- the re-linking of the ancestors after an `add` (Phrase.py:100-104, Dependent.py:94-98) -/
+def relinkUp : Nat → Heap → Nat → R Heap
+  | 0, _, _ => .outside                      -- a cycle of parentConst: the Python loop does not terminate
+  | fuel + 1, h, x =>
+    match (h.node x).parent with
+    | none => .ok h
+    | some q =>
+      match linkR h q with
+      | .ok h' => relinkUp fuel h' q
+      | .crash c => .crash c
+      | .outside => .outside
+
+/-- `Phrase.add(constituent, position)` for a Constituent: insertion, `linkProperties`, `linkProperties` of every
+    ancestor (`pc = self.parentConst; while pc is not None: pc.linkProperties(); pc = pc.parentConst`), then the
+    adjective re-ordering -/
 def phraseAdd1 (h : Heap) (p e : Nat) (pos : Option Int) : R Heap :=
   match linkR (addElement (setParent h e (some p)) p e pos) p with
-  | .ok h2 => .ok (reorder h2 p)
+  | .ok h2 =>
+    match relinkUp (h2.n + 1) h2 p with
+    | .ok h3 => .ok (reorder h3 p)
+    | .crash c => .crash c
+    | .outside => .outside
   | .crash c => .crash c
   | .outside => .outside
 
@@ -172,7 +192,9 @@ def phraseAddAll (h : Heap) (p : Nat) (pos : Option Int) : List (Arg Item) → R
   | [] => .ok h
   | c :: cs =>
     match phraseAdd h p pos c with
-    | .ok h1 => phraseAddAll h1 p pos cs
+    | .ok h1 =>
+      -- `position += len(self.elements) - nb` : the next element of the list goes after the ones just inserted
+      phraseAddAll h1 p (pos.map (fun i => i + ((h1.kids p).length : Int) - ((h.kids p).length : Int))) cs
     | .crash e => .crash e
     | .outside => .outside
 end
@@ -208,7 +230,11 @@ def mkPhrase (h : Heap) (k : Kind) (lang : Lang) (args : List (Arg Item)) : R (H
 /-- `Dependent.add(dependent, position)` -/
 def depAdd (h : Heap) (p : Nat) (pos : Option Int) : Arg Item → R Heap
   | .item (.node d) =>
-    if (h.kind d).isDep then linkR (addElement h p d pos) p
+    if (h.kind d).isDep then
+      match linkR (addElement h p d pos) p with
+      | .ok h2 => relinkUp (h2.n + 1) h2 p
+      | .crash c => .crash c
+      | .outside => .outside
     else .ok h.warn
   | _ => .ok h.warn
 
@@ -221,7 +247,7 @@ def initDeps (h : Heap) (p : Nat) : List Item → Heap
 /-- `Dependent(params, deprel)` -/
 def mkDep (h : Heap) (k : Kind) (lang : Lang) (params : List (Arg Item)) : R (Heap × Nat) :=
   match params with
-  | [] => .crash .indexError                    -- warning, then `params[0]`
+  | [] => .outside                              -- a warning; the dummy Q("*terminal") is kept as head
   | .item (.node t) :: rest =>
     if !(h.kind t).isTerminal then .outside     -- "Dependent needs Terminal": the dummy Q("*terminal") stays
     else
